@@ -230,6 +230,12 @@ func RunStdin(dir string, environ []string, timeout time.Duration, stdin string,
 	}
 	res.Dur = time.Since(start)
 	res.Stdout, res.Stderr = so.String(), se.String()
+	// resource exhaustion of the sandbox is never evidence about the property
+	for _, marker := range []string{"no space left on device", "cannot allocate memory", "too many open files", "resource temporarily unavailable"} {
+		if strings.Contains(res.Stderr, marker) || strings.Contains(res.Stdout, marker) {
+			Infra("%s: sandbox resource exhaustion (%s)", filepath.Base(bin), marker)
+		}
+	}
 	return res
 }
 
